@@ -24,6 +24,10 @@ TREES: dict[str, list[str]] = {
     "T4r": ["P", "P.A", "P.B", "Q"],  # two roots
     "T5f": ["L", "P", "P.A", "P.B", "Q"],  # three roots, one sorting before and one after P's children
     "F4": ["A", "B", "C", "D"],  # four roots, no hierarchy: 2 subjects x 2 objects all unrelated
+    # six roots with one sub module each plus a bystander root: 3 subjects x 3 objects, all pairwise unrelated
+    "F6x": ["P", "P.X", "Q", "Q.X", "A", "A.X", "B", "B.X", "C", "C.X", "D", "D.X", "L"],
+    "T4k": ["P", "P.A", "P.A.X", "P.C"],  # adv naming: a, a.x, a.x.y, a.x_y - 'a.x.y' read as a regex also matches 'a.x_y'
+    "T6d": ["P", "P.A", "P.A.X", "P.A.X.Y", "P.B", "Q"],  # a chain of depth 3 with a sibling branch and a second root
     "T7a": ["P", "P.A", "P.A.X", "P.B", "P.B.Y", "P.C", "P.D"],
 }
 
